@@ -352,6 +352,49 @@ def r5_2(ctx):
     ctx.floor("XOR statements outside helpers", nx, 3)
 
 
+def closure_translator(f, cfn):
+    """For closure body `cfn`: (enclosing function name, its Body, location of the closure's construction,
+    tr) where tr maps an expression of the closure to the enclosing function's expression for it (captures
+    replaced by what was captured; None when it uses something that is not a capture)."""
+    if "::{closure#" not in cfn:
+        return None
+    pfn = cfn[:cfn.index("::{closure#")]
+    if not f.has_body(pfn):
+        return None
+    pb = f.body(pfn)
+    pex = Exprs(pb)
+    caps = cloc = None
+    for loc, st in pb.iter_stmts():
+        if st["k"] == "assign" and st["rv"]["k"] == "aggregate" and st["rv"].get("agg") == "closure" and st["rv"].get("closure") == cfn:
+            caps = pex.rvalue(st["rv"], loc)[3]
+            cloc = loc
+    if caps is None:
+        return None
+
+    def tr(e):
+        if not isinstance(e, tuple):
+            return e
+        if e[0] == "field" and isinstance(e[1], tuple) and e[1][0] in ("mem", "deref", "arg"):
+            base = e[1]
+            if base[0] == "deref":
+                base = base[1]
+            if (base[0] == "mem" and base[1] == 1) or base == ("arg", 1):
+                try:
+                    return caps[int(e[2])]
+                except (ValueError, IndexError):
+                    return None
+        if e[0] in ("arg", "var", "mem"):
+            return None
+        out = []
+        for x in e:
+            y = tr(x) if isinstance(x, tuple) else x
+            if isinstance(x, tuple) and y is None:
+                return None
+            out.append(y)
+        return tuple(out)
+    return pfn, pb, cloc, tr
+
+
 def _template_term(f, cfn, root, idx, orphans):
     """For a raw Full write on object `root` inside closure `cfn`: the orphan XOR term (from `orphans`) of the
     enclosing function that removes a pawn at the same square from the template `root` was cloned from."""
